@@ -37,7 +37,7 @@ ASSUMPTIONS = [
     "gradient exactness is demanded for linear functions only (as stated); for general multilinear functions adaptive == static is demanded",
 ]
 PROBES = ["dim1", "dim2", "dim3", "point_on_vertex", "point_on_grid_line", "point_on_upper_boundary", "point_on_lower_boundary", "batch_revisits_cell",
-          "warm_batch", "partial_batch", "gradient_query", "linear_function", "shifted_base_point", "negative_indices", "query_buffer_reused_in_place", "external_values_mode", "known_vertices_reassigned"]
+          "warm_batch", "partial_batch", "gradient_query", "linear_function", "shifted_base_point", "negative_indices", "query_buffer_reused_in_place", "external_values_mode", "known_vertices_reassigned", "vector_valued_function"]
 
 
 def make_function(ch, d, linear):
@@ -75,6 +75,19 @@ def make_function(ch, d, linear):
     return f, grad, {",".join(map(str, s)): c for s, c in coef.items() if c}
 
 
+def make_vector_function(ch, d, linear, vdim):
+    """vdim independent multilinear components; scalar arguments give a (vdim,) array, array arguments (vdim, n)."""
+    comps = [make_function(ch, d, linear) for _ in range(vdim)]
+
+    def f(*x):
+        return np.array([np.asarray(c[0](*x), dtype=float) * np.ones(np.shape(x[0])) for c in comps])
+
+    def grad(axis, *x):
+        return np.array([np.asarray(c[1](axis, *x), dtype=float) * np.ones(np.shape(x[0])) for c in comps])
+
+    return f, grad, [c[2] for c in comps]
+
+
 def run_history_c41(ch, tr: Trace) -> None:
     with ch.span("config"):
         d = ch.rng(1, 3)
@@ -90,6 +103,10 @@ def run_history_c41(ch, tr: Trace) -> None:
         high = low + h * (npt - 1)
         shift = np.array([ch.rng(-2, 2) if ch.flag(1, 3) else 0 for _ in range(d)])
         f, gradf, coefs = make_function(ch, d, linear)
+        # vector-valued functions (constructor argument ``dim``, "dimension of the field to interpolate")
+        vdim = ch.choice([1, 1, 1, 2, 3])
+        if vdim > 1:
+            f, gradf, coefs = make_vector_function(ch, d, linear, vdim)
         # "external" mode: the adaptive table has no function; the caller asks which vertices a query needs
         # (quadrature_points_from_coordinates), computes them and feeds them back (assign_values) before querying
         external = ch.flag(1, 3)
@@ -103,8 +120,14 @@ def run_history_c41(ch, tr: Trace) -> None:
         tr.probe("shifted_base_point")
     if np.any(shift > 0):
         tr.probe("negative_indices")
-    static = pp.InterpolationTable(low, high, npt, f)
-    adaptive = pp.AdaptiveInterpolationTable(h.copy(), base_point=base.copy(), function=None if external else f, dim=1)
+    vv = "_vector_valued" if vdim > 1 else ""
+    if vdim > 1:
+        tr.probe("vector_valued_function")
+    static = pp.InterpolationTable(low, high, npt, f, dim=vdim)
+    try:
+        adaptive = pp.AdaptiveInterpolationTable(h.copy(), base_point=base.copy(), function=None if external else f, dim=vdim)
+    except Exception as e:  # noqa: BLE001
+        raise Violation("adaptive_answers_every_point_in_box", f"constructing the adaptive table for a {vdim}-valued function raised {e!r}", "adaptive_constructor_raised")
     verts = np.array(list(itertools.product(*[np.linspace(low[i], high[i], npt[i]) for i in range(d)]))).T
     scale = 1.0 + float(np.max(np.abs(f(*verts))))
     tol = 1e-9 * scale
@@ -164,8 +187,8 @@ def run_history_c41(ch, tr: Trace) -> None:
             exp = adaptive._base_point + adaptive._h * C
             if not np.allclose(P, exp, rtol=0, atol=1e-9 * (1 + np.max(np.abs(exp)))):
                 raise Violation("cache_consistent", f"after {where}: cached coordinates do not match base + h * index column by column")
-            vals = adaptive._table._values[0]
-            ex = f(*P)
+            vals = adaptive._table._values
+            ex = np.asarray(f(*P), dtype=float).reshape(vals.shape)
             if not np.allclose(vals, ex, rtol=0, atol=tol):
                 raise Violation("cache_consistent", f"after {where}: cached vertex values differ from the function at the cached coordinates")
 
@@ -184,18 +207,18 @@ def run_history_c41(ch, tr: Trace) -> None:
             ch.end()
         try:
             coord, ind = adaptive.quadrature_points_from_coordinates(x, remove_known_points=not keep_known)
-            vals = np.atleast_1d(f(*coord)) if coord.shape[1] else np.empty(0)
+            vals = np.atleast_1d(f(*coord)) if coord.shape[1] else np.empty(0)  # (n,) or (vdim, n)
             if keep_known and adaptive._table._coords.shape[1]:
                 tr.probe("known_vertices_reassigned")
             if coord.shape[1] == 0:
                 return
             if one_by_one:
                 for c in range(coord.shape[1]):
-                    adaptive.assign_values(vals[c:c + 1], coord[:, c].reshape((-1, 1)), indices=ind[:, c].reshape((-1, 1)) if with_indices else None)
+                    adaptive.assign_values(vals[..., c:c + 1], coord[:, c].reshape((-1, 1)), indices=ind[:, c].reshape((-1, 1)) if with_indices else None)
             else:
                 adaptive.assign_values(vals, coord, ind if with_indices else None)
         except Exception as e:  # noqa: BLE001
-            raise Violation("adaptive_answers_every_point_in_box", f"feeding the vertices needed for {x.T.tolist()} (keep_known={keep_known}, indices={with_indices}, one_by_one={one_by_one}) raised {e!r}", "adaptive_feed_raised")
+            raise Violation("adaptive_answers_every_point_in_box", f"feeding the vertices needed for {x.T.tolist()} (keep_known={keep_known}, indices={with_indices}, one_by_one={one_by_one}) raised {e!r}", "adaptive_feed_raised" + vv)
         tr.op("feed", "ok", int(coord.shape[1]), keep_known, with_indices, one_by_one)
 
     def hit_class(before, after, x):
@@ -220,13 +243,13 @@ def run_history_c41(ch, tr: Trace) -> None:
         try:
             ya = adaptive.interpolate(arg)
         except Exception as e:  # noqa: BLE001
-            raise Violation("adaptive_answers_every_point_in_box", f"adaptive.interpolate({x.T.tolist()}) raised {e!r}", "adaptive_interpolate_raised")
+            raise Violation("adaptive_answers_every_point_in_box", f"adaptive.interpolate({x.T.tolist()}) raised {e!r}", "adaptive_interpolate_raised" + vv)
         after = adaptive._table._coords.shape[1]
         try:
             ys = static.interpolate(arg)
         except Exception as e:  # noqa: BLE001
             raise Violation("static_answers_every_point_in_box", f"static.interpolate({x.T.tolist()}) raised {e!r}", "static_interpolate_raised")
-        ye = np.atleast_1d(f(*x))
+        ye = np.atleast_1d(f(*x)).reshape(-1)
         hc = hit_class(before, after, x)
         for k, v in fl.items():
             if v:
@@ -234,8 +257,9 @@ def run_history_c41(ch, tr: Trace) -> None:
         if hc != "cold":
             tr.probe(hc + "_batch")
         ya, ys = np.asarray(ya).reshape(-1), np.asarray(ys).reshape(-1)
-        if ya.shape != ye.shape or not np.allclose(ya, ys, rtol=0, atol=tol):
-            raise Violation("adaptive_equals_static", f"interpolate at {x.T.tolist()} ({hc} cache): adaptive {ya.tolist()} vs static {ys.tolist()} (exact {ye.tolist()})")
+        if ya.shape != ye.shape or ys.shape != ye.shape or not np.allclose(ya, ys, rtol=0, atol=tol):
+            raise Violation("adaptive_equals_static", f"interpolate at {x.T.tolist()} ({hc} cache): adaptive {ya.tolist()} vs static {ys.tolist()} (exact {ye.tolist()})",
+                            "adaptive_equals_static" + ("_vector_valued" if vdim > 1 else ""))
         if not np.allclose(ys, ye, rtol=0, atol=tol):
             raise Violation("table_exact_for_multilinear", f"interpolate at {x.T.tolist()}: static table {ys.tolist()} vs exact {ye.tolist()}", "static_not_exact")
         tr.op("interpolate", "ok", x.T.tolist(), hc, bool(fl["vertex"] or fl["line"]))
@@ -259,14 +283,14 @@ def run_history_c41(ch, tr: Trace) -> None:
         try:
             ga = adaptive.gradient(xq, axis)
         except Exception as e:  # noqa: BLE001
-            raise Violation("adaptive_answers_every_point_in_box", f"adaptive.gradient({x.T.tolist()}, axis={axis}) raised {e!r}", "adaptive_gradient_raised")
+            raise Violation("adaptive_answers_every_point_in_box", f"adaptive.gradient({x.T.tolist()}, axis={axis}) raised {e!r}", "adaptive_gradient_raised" + vv)
         after = adaptive._table._coords.shape[1]
         try:
             gs = static.gradient(xq, axis)
         except Exception as e:  # noqa: BLE001
             on_upper = bool(dyadic and np.any(x == high.reshape((-1, 1))))
             raise Violation("static_answers_every_point_in_box", f"static.gradient({x.T.tolist()}, axis={axis}) raised {e!r}", "static_gradient_raised_on_upper_boundary" if on_upper else "static_gradient_raised")
-        ge = np.atleast_1d(gradf(axis, *x)) * np.ones(n)
+        ge = (np.atleast_1d(gradf(axis, *x)) * np.ones(n)).reshape(-1)
         hc = hit_class(before, after, x)
         tr.probe("gradient_query")
         ga, gs = np.asarray(ga).reshape(-1), np.asarray(gs).reshape(-1)
